@@ -66,12 +66,21 @@ fn show(seq: &[K]) -> String {
         .join(",")
 }
 
-/// `big` > 0: the first ordinary attribute is a DATA blob of that many bytes (what follows sits deep in the message).
+/// ordinary attributes of a type the library has no decoder for (comprehension-optional / comprehension-required)
+pub const O_UNKNOWN_OPTIONAL: usize = usize::MAX - 1;
+pub const O_UNKNOWN_REQUIRED: usize = usize::MAX - 2;
+pub const O_SOFTWARE: usize = usize::MAX - 3;
+
+/// `big` > 0: the first ordinary attribute is a DATA blob of that many bytes (what follows sits deep in the message);
+/// the `O_*` constants instead select another kind for EVERY ordinary attribute.
 fn logical(seq: &[K], big: usize) -> Vec<L> {
     let first_o = seq.iter().position(|k| *k == K::O);
     seq.iter()
         .enumerate()
         .map(|(i, k)| match k {
+            K::O if big == O_UNKNOWN_OPTIONAL => L::Unknown(0xFF31, Some(vec![i as u8, 2, 3, 4])),
+            K::O if big == O_UNKNOWN_REQUIRED => L::Unknown(0x7F31, Some(vec![i as u8, 2, 3])),
+            K::O if big == O_SOFTWARE => L::Software(format!("s{}", i)),
             K::O if big > 0 && Some(i) == first_o => L::Data((0..big).map(|x| (x * 17 + 3) as u8).collect()),
             K::O => L::Priority(i as u32 + 1),
             K::Mi => L::Mi,
@@ -172,6 +181,10 @@ fn check_seq(seq: &[K], big: usize, key_subj: &stun_rs::HMACKey, key_raw: &[u8],
                 let expect_ok = !validating || !admitted_invalid;
                 match (&res, expect_ok) {
                     (Ok(d), true) => {
+                        let strip = |v: &[L]| -> Vec<L> {
+                            v.iter().map(|a| match a { L::Unknown(t, _) if !(o.ctx && o.unknown_data) => L::Unknown(*t, None), x => x.clone() }).collect()
+                        };
+                        let want = strip(&want);
                         if d.attrs != want {
                             rep.violate(
                                 format!("admission/{}", classify(seq, big, &want_pos, &d.attrs)),
@@ -205,6 +218,7 @@ fn check_seq(seq: &[K], big: usize, key_subj: &stun_rs::HMACKey, key_raw: &[u8],
                 // ordering rule disabled: every wire attribute in order (validation may reject)
                 match &res {
                     Ok(d) => {
+                        let ls: Vec<L> = ls.iter().map(|a| match a { L::Unknown(t, _) if !(o.ctx && o.unknown_data) => L::Unknown(*t, None), x => x.clone() }).collect();
                         if d.attrs != ls {
                             rep.violate(
                                 "not-ignore-does-not-return-all-wire-attributes",
@@ -335,6 +349,25 @@ pub fn run(ctx: &RunCtx) -> i32 {
             });
         }
     }
+    // other kinds of ordinary attribute: types the library has no decoder for (comprehension-optional and -required) and
+    // SOFTWARE, every sequence of length <= 5 (thorough 6)
+    {
+        let max_len = if thorough { 6 } else { 5 };
+        for len in 1..=max_len {
+            (0..(1u32 << (2 * len))).into_par_iter().for_each(|n| {
+                let seq = seq_of(n, len);
+                if !seq.contains(&K::O) {
+                    return;
+                }
+                let mut r = Report::new();
+                for kind in [O_UNKNOWN_OPTIONAL, O_UNKNOWN_REQUIRED, O_SOFTWARE] {
+                    check_seq(&seq, kind, &subj, &raw, false, &mut r);
+                }
+                r.sym("other-ordinary-kinds");
+                shared.merge(r);
+            });
+        }
+    }
     let mut rep = shared.into_inner();
     rep.outcome("admission-agrees");
     rep.outcome(format!("violations:{}", rep.violations.len()));
@@ -346,11 +379,11 @@ pub fn run(ctx: &RunCtx) -> i32 {
             level: "exploration",
             rule: format!("all {} sequences of length 0..=8 over {{ordinary, MI, SHA256, FINGERPRINT}} built by the reference codec; wrong-value variants: all subsets of verifiable attributes up to length {}, beyond that none / each single / all; each byte string decoded under all 16 option combinations and without context and compared with the 12-line admit rule; the agent's iterator compared on every sequence; for sequences up to length 4 every construction route of every decoder configuration (builder calls in every order, a repeated call, clones of decoder and context, DecoderContext::default(), MessageDecoder::default()) must give the canonical decoder's result; every sequence of length 1..=5 (thorough 6) containing an ordinary attribute again with the first ordinary attribute a DATA blob of 1000 / 4100 / 20,000 / 65,000 bytes (wrong values: none / each single / all). Non-trivial = distinct (sequence, wrong-set, options) triple whose result agreed with the rule", total, full_subsets_upto),
             assumptions: vec![
-                "ordinary attributes are PRIORITY with distinct values".into(),
+                "ordinary attributes are PRIORITY with distinct values (all lengths), and for sequences up to length 5 / 6 also attributes of unregistered types (comprehension-optional 0xFF31, comprehension-required 0x7F31) and SOFTWARE".into(),
                 "with validation and no key an admitted MAC cannot validate (library contract), FINGERPRINT needs no key".into(),
                 "with the ordering rule disabled and validation on only 'all attributes or an error' is required".into(),
             ],
-            required_symbols: vec!["sequences", "agent-iterator-compared", "deep-sequences", "decoder-construction-routes"],
+            required_symbols: vec!["sequences", "agent-iterator-compared", "deep-sequences", "decoder-construction-routes", "other-ordinary-kinds"],
             min_outcomes: 2,
             exhaustive: true,
             bounds: json!({"max_len": 8, "sequences": total, "full_subsets_upto_len": full_subsets_upto}),
